@@ -1,11 +1,12 @@
--- driver gm_c12: path components (UPath / Glob / Rewrite), see GrcovModel/Drv/C11.lean
+-- driver gm_c12: path components (UPath / Glob / Rewrite), see GrcovModel/Drv/C11.lean; the ops
+-- `c12.*` are in GrcovModel/Drv/C12.lean
 import GrcovModel.Drv.C12
-open Grcov.Drv.C11
+open Grcov.Drv.C12
 
 partial def loop (h : IO.FS.Stream) (out : IO.FS.Stream) : IO Unit := do
   let line ← h.getLine
   if line.isEmpty then return ()
-  out.putStrLn (step line)
+  out.putStrLn (dispatch line)
   loop h out
 
 def main : IO Unit := do
